@@ -899,6 +899,14 @@ func (r *Reader) CommitMessages(ctx context.Context, msgs ...Message) error {
 		errch, creq.errch = ch, ch
 	}
 
+	// select picks a ready case at random: once the reader is closed nothing
+	// reads r.commits any more, the commit must not be queued.
+	select {
+	case <-r.stctx.Done():
+		return io.ErrClosedPipe
+	default:
+	}
+
 	select {
 	case r.commits <- creq:
 	case <-ctx.Done():
@@ -918,6 +926,9 @@ func (r *Reader) CommitMessages(ctx context.Context, msgs ...Message) error {
 		return ctx.Err()
 	case err := <-errch:
 		return err
+	case <-r.stctx.Done():
+		// the reader was closed before the commit was processed.
+		return io.ErrClosedPipe
 	}
 }
 
